@@ -987,7 +987,16 @@ class BaseImage(metaclass=ImageMeta):
 
         if not method:
             if cls._render_methods:
-                cls._render_method = cls._default_render_method
+                if "_default_render_method" in vars(cls):
+                    # The class that implements the render methods; no parent style
+                    # class to fall back to
+                    cls._render_method = cls._default_render_method
+                else:
+                    # Fall back to the render method of the parent style class
+                    try:
+                        del cls._render_method
+                    except AttributeError:
+                        pass
         else:
             cls._render_method = method
 
